@@ -53,7 +53,7 @@ Definition run_sitem (k : kind) (n : N) (i : sitem) (p : pkt) : list tok :=
 
 (* does the type have a ReasonString() method (withReason asks by type assertion)? *)
 Definition has_reason_string (k : kind) : bool :=
-  match k with KDisconnect => false | _ => true end.
+  match k with KUndefined => false | _ => true end.
 
 Definition run_string (k : kind) (w : swrap) (items : list sitem) (n : N) (p : pkt) : list tok :=
   let ts := List.concat (map (fun i => run_sitem k n i p) items) in
